@@ -18,5 +18,7 @@ func init() {
 			ruleReducer(r)
 			ruleSlotInList(r)
 			ruleByteAPICopies(r)
+			// (a Put applied to the store that the rotation has just handed to the flusher is acknowledged and unreadable)
+			ruleApplyBeforeRotate(r)
 		})
 }
